@@ -281,7 +281,10 @@ C05Checks(e) ==
                       IN Chk("EXT.lunarTime.slot-bounds", << k, q.hm >>, q.hm = << Fmt2(lo) \o << 58, 48, 48 >>, Fmt2(hi) \o << 58, 53, 57 >> >>)
                  ELSE 0)
             + Chk("C05.eightChar.sect1", << k, q.ec1 >>, q.ec1 = << GanZhiName(yIns), GanZhiName(mIns), GanZhiName(dEarly), GanZhiName(hIdx) >>)
-            + Chk("C05.eightChar.sect2", << k, q.ec2 >>, q.ec2 = << GanZhiName(yIns), GanZhiName(mIns), GanZhiName(dLate), GanZhiName(hIdx) >>))
+            + Chk("C05.eightChar.sect2", << k, q.ec2 >>, q.ec2 = << GanZhiName(yIns), GanZhiName(mIns), GanZhiName(dLate), GanZhiName(hIdx) >>)
+            + Chk("C05.eightChar.printed", << k, q.ecs >>,
+                  q.ecs = << GanZhiName(yIns) \o " " \o GanZhiName(mIns) \o " " \o GanZhiName(dEarly) \o " " \o GanZhiName(hIdx),
+                             GanZhiName(yIns) \o " " \o GanZhiName(mIns) \o " " \o GanZhiName(dLate) \o " " \o GanZhiName(hIdx) >>))
 
 C05Year == IsEv("C05Year") /\ Consume(C05Checks(Trace[l]))
 
